@@ -87,7 +87,7 @@ def step(rng, pool):
 
     x = pool[int(rng.integers(len(pool)))]
     nd = x.ndim
-    op = str(rng.choice(["ew1", "ew2", "index", "reduce", "transpose", "reshape", "concat", "stack", "dot", "convert", "sort", "roll", "flip", "pad",
+    op = str(rng.choice(["ew1", "ew2", "index", "index", "reduce", "transpose", "reshape", "concat", "stack", "dot", "convert", "sort", "roll", "flip", "pad",
                          "bcast", "where", "astype", "triu", "diagonal", "expand", "squeeze", "round", "kron", "tensordot", "unique", "argmax", "nonzero", "dok_assign",
                          "create", "create", "like", "einsum", "einsum", "diagonalize", "tril", "moveaxis", "take", "matmul", "clip", "isnan", "mean", "cumulative"]))
     coo = x.asformat("coo") if not isinstance(x, sparse.COO) else x
@@ -181,6 +181,14 @@ def step(rng, pool):
             return f"{f.__name__}(x,y)", f(x, y)
         except ValueError:
             return f"{f.__name__}(x,x)", f(x, x)
+    if op == "index" and nd and rng.random() < 0.4:
+        # an index array or boolean mask on one axis, slices (negative steps too) on the others: the sorted= promise of getitem
+        ax = int(rng.integers(0, nd))
+        e = x.shape[ax]
+        if e:
+            arr = rng.integers(-e, e, size=int(rng.integers(1, 5))) if rng.random() < 0.7 else (rng.random(e) < 0.6)
+            idx = tuple(arr if i == ax else (slice(None, None, -1) if rng.random() < 0.5 else gen.rand_slice(rng, d)) for i, d in enumerate(x.shape))
+            return f"x[{'mask' if arr.dtype == bool else arr.tolist()}@{ax}, slices]", x[idx]
     if op == "index" and nd:
         idx = tuple(gen.rand_slice(rng, d) if rng.random() < 0.7 else (int(rng.integers(0, d)) if d else slice(None)) for d in x.shape[: int(rng.integers(1, nd + 1))])
         return f"x[{idx}]", x[idx]
@@ -217,6 +225,12 @@ def step(rng, pool):
     if op == "pad" and nd:
         return "pad(x,1)", sparse.pad(x, 1, constant_values=x.fill_value)
     if op == "bcast":
+        if rng.random() < 0.5:
+            # stretched axes forming a run between kept axes: the sorted= promise of broadcast_to depends on the pattern
+            pos = int(rng.integers(0, nd + 1))
+            y = sparse.expand_dims(sparse.expand_dims(coo, axis=pos), axis=pos)
+            tgt = y.shape[:pos] + (int(rng.integers(1, 4)), int(rng.integers(1, 4))) + y.shape[pos + 2:]
+            return f"broadcast_to(expand_dims^2(coo,{pos}),{tgt})", sparse.broadcast_to(y, tgt)
         return "broadcast_to(coo,(2,)+shape)", sparse.broadcast_to(coo, (2,) + coo.shape)
     if op == "where":
         return "where(x>0,x,fill)", sparse.where(coo > 0, coo, coo.fill_value)
@@ -251,10 +265,16 @@ def leg_c(ctx, rng, n):
             shp = gen.shape(rng, 1, 3, extents=[1, 2, 2, 3, 3, 4, 5], max_size=80)
             fill = int(rng.choice([0, 0, 0, 2]))
             d = gen.dense(rng, shp, fill, density=float(rng.choice([0.15, 0.4, 0.7, 1.0])))
-            if rng.random() < 0.3:
+            r = rng.random()
+            if r < 0.3:
                 d = d.astype(np.float64) / 2
+            elif r < 0.42:
+                # a NaN (or infinite) fill value, real or complex: "equal to the fill value" needs NaN == NaN there
+                fill = [float("nan"), float("inf"), complex("nan+0j")][int(rng.integers(3))]
+                dt = np.complex128 if isinstance(fill, complex) else np.float64
+                d = np.where(rng.random(size=shp) < 0.5, np.asarray(fill, dtype=dt), d.astype(dt))
             x, fd = gen.to_format(rng, d, None, fill)
-            pool.append(x); descs.append({"format": fd, "dense": d.tolist(), "fill": fill})
+            pool.append(x); descs.append({"format": fd, "dense": np.asarray(d).astype(str).tolist() if np.asarray(d).dtype.kind in "fc" else d.tolist(), "fill": repr(fill)})
         trace = []
         for depth in range(int(rng.integers(1, 5))):
             with warnings.catch_warnings():
@@ -279,7 +299,7 @@ def leg_c(ctx, rng, n):
                 msg = impl.nofill_problem(r)
                 if not msg:
                     dd = r.todense()
-                    from sparse.numba_backend._utils import equivalent
+                    from impl import equivalent
                     cnt = int((~np.asarray(equivalent(dd, r.fill_value))).sum()) if dd.size else 0
                     if r.nnz != cnt:
                         msg = f"nnz {r.nnz} but {cnt} elements differ from the fill value"
@@ -343,7 +363,7 @@ def leg_expr(ctx, rng, n, max_depth):
     every generated program is run by the model, by the dense reference semantics, by the real library
     (COO inputs; a second run with GCXS or DOK inputs where the operation is offered) and by NumPy."""
     import sparse
-    from sparse.numba_backend._utils import equivalent
+    from impl import equivalent
 
     import c06_expr as E
 
